@@ -80,6 +80,23 @@ class C18(C16):
                 case["_xl_truth"] = truth
             obs = L.run_load(case["tree"], base, root, case["cfg"])
             obs["base"], obs["root"] = base, root
+            # one forest over the tables of two loads of the same tree under two root folders (same relative names)
+            if case["cfg"].get("use_root") and obs["code"] == 0 and not case.get("xlsx"):
+                from pdtable.io.load import make_location_trees
+
+                keep1, keep2 = [], []
+                base2, root2 = L.build_tree(case["tree"])
+                try:
+                    L.run_load(case["tree"], base, root, case["cfg"], keep_tables=keep1)
+                    L.run_load(case["tree"], base2, root2, case["cfg"], keep_tables=keep2)
+                    if keep1 and keep2:
+                        try:
+                            obs["two_loads"] = [L.tree_dump(n) for n in make_location_trees(iter(keep1 + keep2))]
+                            obs["two_loads_n"] = len(keep1) + len(keep2)
+                        except Exception as e:
+                            obs["two_loads"] = f"{type(e).__name__}: {e}"[:200]
+                finally:
+                    shutil.rmtree(base2, ignore_errors=True)
             # the same kind of text read from a stream, with the origin given by the caller
             import io
 
@@ -89,6 +106,17 @@ class C18(C16):
             if tb:
                 loc = tb[0].metadata.origin.input_location
                 obs["stream_origin"] = [loc.file.load_specification.specification, loc.row, loc.sheet_name]
+            # ... and with a location given as well: the location is what the tables report (the text origin is shadowed)
+            from pdtable.table_origin import NullLocationFile
+
+            ls = NullLocationFile("given file").make_location_sheet()
+            with warnings.catch_warnings():
+                warnings.simplefilter("ignore")
+                tb2 = [b for bt, b in read_csv(io.StringIO("\n\n" + L.table_text(2, 0)), sep=";", origin="my source", location_sheet=ls)
+                       if bt.name == "TABLE"]
+            if tb2:
+                loc2 = tb2[0].metadata.origin.input_location
+                obs["stream_location"] = [loc2.file.load_specification.specification, loc2.row, loc2.sheet is ls]
             obs["nodes"] = [[p, k, pl] for p, k, pl in L.scan_fs(base, case["tree"], root)]
             obs["xl_truth"] = case.pop("_xl_truth", None)
             # ground truth rows of the csv tables
@@ -169,10 +197,31 @@ class C18(C16):
         # the location forest, for the tables in load order and in three other orders
         for tag, trees in [("", obs.get("trees"))] + [(k + ": ", v) for k, v in (obs.get("trees_other") or {}).items()]:
             fails += [tag + f for f in self._forest(case, obs, trees, truth, xl, root)]
+        # a forest over two loads: every table still hangs beneath its own file
+        tl = obs.get("two_loads")
+        if isinstance(tl, str):
+            fails.append(f"forest-two-loads: make_location_trees raised {tl}")
+        elif tl:
+            def walk(node, parent):
+                if node["table"] is not None:
+                    yield node, parent
+                for c in node["children"]:
+                    yield from walk(c, node)
+            lv = [x for t in tl for x in walk(t, None)]
+            if len(lv) != obs["two_loads_n"]:
+                fails.append(f"forest-two-loads: {len(lv)} leaves for {obs['two_loads_n']} tables of two loads")
+            for node, parent in lv:
+                if parent is None or parent["id"] != node["table_file"]:
+                    fails.append(f"forest-two-loads: table {node['table']} of {node['table_file']} hangs under "
+                                 f"{None if parent is None else parent['id']}")
+                    break
         # a stream read with an explicit origin names that origin
         so = obs.get("stream_origin")
         if so is not None and so != ["my source", 1, None]:
             fails.append(f"stream-origin: read_csv(stream, origin='my source') reports {so}")
+        sl = obs.get("stream_location")
+        if sl is not None and sl != ["given file", 2, True]:
+            fails.append(f"stream-location: read_csv(stream, origin=..., location_sheet=given) reports {sl}, not the given location")
         return fails
 
     def _forest(self, case, obs, trees, truth, xl, root):
